@@ -932,6 +932,8 @@ def run(ctx, res):
     check_unroll(res, facts)
     check_batchinv(res, facts)
     check_batchinv_par(res, facts)
+    from rules import c01_cios
+    c01_cios.check_cios(res, facts, ["ws", "curves", "shapes"])
     res.notes.append("moduli analysed: %d (units %s); reduction helpers: %d; geq-predicates: %d" % (len(mods), UNITS, len(reducers), len(pinfo)))
     return {
         "level": "other",
